@@ -597,6 +597,12 @@ func (r *FnRun) argTerm(v Val, env *specEnv) Term {
 		}
 		return r.addrIdent(b)
 	case IfaceVal:
+		// an interface known to hold a pointer is identified with the object
+		// it points to, so that ghost state keyed by the object is shared
+		// between code that sees the pointer and code that sees the interface
+		if p, ok := b.Inner.(PtrVal); ok && p.Kind == pkHeap && p.Path == "" {
+			return p.Ref
+		}
 		return b.T
 	case ClosureVal:
 		return b.T
@@ -711,6 +717,33 @@ func (r *FnRun) evalCall(x SCall, env *specEnv) Val {
 			return r.addrIdent(p)
 		}
 		sfail("addr of %T", v)
+	case "tinv", "tstep":
+		// the declared (one- or two-state) type invariant of the object x refers
+		// to (true when its dynamic type is not known or has none declared).
+		// The object itself is identified in the pre-state.
+		v := r.evalSpec(x.Args[0], env)
+		if iv, ok := v.(IfaceVal); ok {
+			if iv.Inner == nil {
+				return TTrue
+			}
+			v = iv.Inner
+		}
+		p, ok := v.(PtrVal)
+		if !ok {
+			return TTrue
+		}
+		ti := r.e.cs.TypeInvs[typeKey(p.Elem)]
+		if x.Fun == "tstep" {
+			ti = r.e.cs.TypeSteps[typeKey(p.Elem)]
+		}
+		if ti == nil {
+			return TTrue
+		}
+		n := env.with(map[string]Val{ti.Params[0]: p})
+		n.useCells = false
+		n.fr = nil
+		n.bound = nil
+		return r.evalSpec(ti.Body, n)
 	case "pow2":
 		return r.pow2Term(r.evalSpec(x.Args[0], env).(Term))
 	case "bv2int":
